@@ -132,5 +132,7 @@ func genSweepCase(r *rand.Rand, i int) any {
 			ua = "html5"
 		}
 	}
-	return genSweep(c, perm, ua)
+	// the pseudo-element position rotates over the pseudo-elements webrender styles
+	pseudo := []string{"before", "after", "marker", "first-letter", "before"}[r.Intn(5)]
+	return genSweep(c, perm, ua, pseudo)
 }
